@@ -510,7 +510,65 @@ def clause_d(repo, chk):
     chk.instance("D-safelog", "clip_log: log of a value guarded by `%s`: %s" % (cond_outer, ok))
 
 
+ONCE_LEVELS = {
+    "value": ("get_nll",),
+    "grad": ("get_grad", "get_nll_grad"),
+    "hess": ("get_nll_grad_hessian", "get_grad_hessp"),
+}
+
+
+def check_constraint_once(repo, chk, levels, rule="A-once"):
+    """the Gaussian-constraint terms are added by the public entry points (__call__, grad, nll_grad, nll_grad_hessian,
+    grad_hessp) of FCN / CombineFCN; the likelihood-level methods get_* that CombineFCN sums over its parts must not
+    reach them again, otherwise a simultaneous fit counts the penalty once per data set plus once more"""
+    from ..resolve import Resolver
+
+    res = Resolver(repo)
+    chk.rule(rule, "no likelihood-level method (get_*) of FCN / CombineFCN reaches a GaussianConstr term through the call graph: the constraint penalty, gradient and Hessian enter a (simultaneous) fit exactly once, at the public entry point")
+    M = "tf_pwa/model/model.py::"
+    gc = repo.cls(M + "GaussianConstr")
+    targets = {f.key for f in gc.methods.values() if f.name.startswith("get_constrain")}
+    if len(targets) < 3:
+        raise AnalysisError("GaussianConstr.get_constrain_{term,grad,hessian} not found")
+    n = 0
+    for lv in levels:
+        for cname in ("FCN", "CombineFCN"):
+            for mname in ONCE_LEVELS[lv]:
+                start = repo.cls(M + cname).methods.get(mname)
+                if start is None:
+                    raise AnalysisError("anchor vanished: %s.%s" % (cname, mname))
+                seen, todo = {}, [(start.key, None)]
+                while todo:
+                    k, par = todo.pop()
+                    if k in seen:
+                        continue
+                    seen[k] = par
+                    f = repo.fn_opt(k)
+                    if f is None or k in targets:
+                        continue
+                    for c in walk_local(f.node):
+                        if isinstance(c, ast.Call):
+                            cands, how = res.resolve_call(f, c)
+                            if how in ("generic", "external"):
+                                continue
+                            for x in cands:
+                                if hasattr(x, "node") and hasattr(x, "key") and "::" in x.key and x.key not in seen:
+                                    todo.append((x.key, (k, c.lineno)))
+                hit = sorted(t for t in targets if t in seen)
+                n += 1
+                chk.oblige(rule, "%s.%s: %d functions reachable, GaussianConstr terms among them: %s" % (cname, mname, len(seen), [h.split("::")[1] for h in hit] or "none"), not hit)
+                if hit:
+                    path = [hit[0]]
+                    while seen[path[-1]]:
+                        path.append(seen[path[-1]][0])
+                    path.reverse()
+                    first_line = seen[path[1]][1] if len(path) > 1 else start.lineno
+                    chk.violation(rule, start.key, "reaches:" + hit[0].split("::")[1], "the likelihood-level method reaches %s (path %s): in a simultaneous fit the constraint is counted once per part and again at the public entry point, so the value/gradient/Hessian is not that of the minimised function" % (hit[0].split("::")[1], " -> ".join(p.split("::")[1] for p in path)), file="tf_pwa/model/model.py", line=first_line, path=[p for p in path])
+    return n
+
+
 def run(repo, chk, tier):
+    check_constraint_once(repo, chk, ("value", "grad", "hess"))
     chk.assume("tensor shapes are abstracted: x[:, None] / x[None, :] are identities, products commute (diagonal scalings)")
     clause_a(repo, chk)
     clause_b(repo, chk)
